@@ -454,9 +454,13 @@ def r07_7(run):
     g = cfg_of(up)
     tests = [t for t in g.live if t.kind == 'test' and isinstance(t.ast, ast.Compare) and len(t.ast.ops) == 1 and isinstance(t.ast.ops[0], (ast.In, ast.NotIn))
              and const(t.ast.left) == 'SOURCE_ADDR']
-    run.floor('R07.7', 'tests for a SOURCE_ADDR keyword in Stream.update', len(tests), 1)
-    for t in tests:
-        lab = 'T' if isinstance(t.ast.ops[0], ast.In) else 'F'
+    # the same test spelled  src = kw.get('SOURCE_ADDR'); if src is not None:
+    got = set(names_defined_by(up, lambda v: isinstance(v, ast.Call) and callee_attr(v) == 'get' and v.args and const(v.args[0]) == 'SOURCE_ADDR'))
+    tests2 = [t for t in g.live if t.kind == 'test' and isinstance(t.ast, ast.Compare) and len(t.ast.ops) == 1 and isinstance(t.ast.ops[0], (ast.Is, ast.IsNot))
+              and dotted(t.ast.left) in got and is_none(t.ast.comparators[0])]
+    run.floor('R07.7', 'tests for a SOURCE_ADDR keyword in Stream.update', len(tests) + len(tests2), 1)
+    for t in tests + tests2:
+        lab = 'T' if isinstance(t.ast.ops[0], (ast.In, ast.IsNot)) else 'F'
         start = [s_ for l_, s_ in t.succ if l_ == lab]
         for field in ('self.source_addr', 'self.source_port'):
             ws = [n for n in g.real_nodes() if n.kind == 'stmt' and assign_to(n.ast, field) is not None]
